@@ -298,6 +298,35 @@ impl Ctx {
         }
     }
 
+    /// a certificate with a certified user attribute (photo id): every bit of the attribute packet -- subpacket length, type,
+    /// image header (length, version, format, reserved octets) and image octets -- is covered by the certification
+    fn attribute_certificate(&mut self, ver: KeyVersion, seed: u64, cls: &str) {
+        use pgp::composed::{SecretKeyParamsBuilder};
+        use pgp::packet::UserAttribute;
+        let built = guarded(|| -> Option<SignedSecretKey> {
+            let ua = UserAttribute::new_image((0..40u8).map(|i| i.wrapping_mul(13).wrapping_add(1)).collect::<Vec<u8>>().into()).ok()?;
+            let mut pb = SecretKeyParamsBuilder::default();
+            pb.version(ver).key_type(if ver == KeyVersion::V6 { KeyType::Ed25519 } else { KeyType::Ed25519Legacy }).can_certify(true).can_sign(true).primary_user_id("photo <p@example.org>".into()).user_attributes(vec![ua]);
+            pb.build().ok()?.generate(Rng::new(seed)).ok()
+        });
+        let Ok(Some(k)) = built else { self.out.case("", &[], &["attr-cert".into(), cls.into()], "key generation failed", Some(false), &format!("{cls}-unavailable")); return; };
+        let pk = SignedPublicKey::from(k);
+        let Ok(bytes) = pk.to_bytes() else { return; };
+        let ok0 = pk.verify_bindings().is_ok() && !pk.details.user_attributes.is_empty();
+        self.out.case("", &[], &["attr-cert-baseline".into(), cls.into()], &format!("verify={} attributes={}", ok0 as u8, pk.details.user_attributes.len()), Some(ok0), &format!("{cls}-baseline"));
+        // locate the attribute packet (tag 17)
+        let mut pos = 0usize; let mut span = None;
+        while pos + 2 <= bytes.len() { let tag = bytes[pos] & 0x3f; let (hl, bl) = match bytes[pos + 1] { x @ 0..=191 => (2usize, x as usize), x @ 192..=223 => (3, ((x as usize - 192) << 8) + bytes[pos + 2] as usize + 192), 255 => (6, u32::from_be_bytes([bytes[pos + 2], bytes[pos + 3], bytes[pos + 4], bytes[pos + 5]]) as usize), _ => break }; if tag == 17 { span = Some((pos + hl, bl)); break; } pos += hl + bl; }
+        let Some((at, len)) = span else { self.out.case("", &[], &["attr-cert".into(), cls.into()], "no attribute packet written", Some(false), &format!("{cls}-unavailable")); return; };
+        for bit in 0..len * 8 {
+            let mut v = bytes.clone(); v[at + bit / 8] ^= 1 << (bit % 8);
+            // accepted means: parsed, the attribute is still there with its certification, and the bindings verify
+            let acc = guarded(|| match SignedPublicKey::from_bytes(&v[..]) { Ok(p2) => p2.details.user_attributes.iter().any(|u| !u.signatures.is_empty()) && p2.verify_bindings().is_ok(), Err(_) => false }).unwrap_or(false);
+            let field = match bit / 8 { 0 => "subpacket-length", 1 => "subpacket-type", 2 | 3 => "image-header-length", 4 => "image-header-version", 5 => "image-format", 6..=17 => "image-header-reserved", _ => "image" };
+            self.report("attrbit", field, true, acc, false, vec!["attr-cert-bit".into(), hx(&bytes), (at * 8 + bit).to_string()], &format!("{cls}-{field}"));
+        }
+    }
+
     /// certificate: every bit of the transferable public key; verify_bindings must fail or the cert must be unchanged in its signed parts
     fn certificate(&mut self, key: &SignedSecretKey, cls: &str) {
         let pk = SignedPublicKey::from(key.clone());
@@ -493,6 +522,8 @@ fn main() {
     }
     cx.certificate(&gen_key_with_subkey(KeyVersion::V4, 210), "cert-v4");
     cx.certificate(&gen_key_with_subkey(KeyVersion::V6, 211), "cert-v6");
+    cx.attribute_certificate(KeyVersion::V4, 214, "attr-cert-v4");
+    cx.attribute_certificate(KeyVersion::V6, 215, "attr-cert-v6");
     cx.several_signatures(&gen_key_with_subkey(KeyVersion::V4, 210), &gen_key_with_subkey(KeyVersion::V4, 212), "cert-v4");
     cx.several_signatures(&gen_key_with_subkey(KeyVersion::V6, 211), &gen_key_with_subkey(KeyVersion::V6, 213), "cert-v6");
     cx.keysigs(KeyVersion::V4, KeyType::Ed25519Legacy, 220, "keysig-v4-eddsa");
